@@ -30,6 +30,9 @@ class Check:
         # per-process work directory (two runs of the same check may overlap); removed by finish()
         self.work = fresh_dir(os.path.join(OUT, "work", f"{pid}.{os.getpid()}"))
         _sweep_stale(os.path.join(OUT, "work"))
+        if not os.environ.get("VERIF_KEEP_WORK"):
+            import atexit
+            atexit.register(shutil.rmtree, self.work, True)   # also after a tool error
         self.replay_dir = ensure_dir(os.path.join(OUT, "replay"))
         self.states = 0
         self.transitions = 0
@@ -226,8 +229,8 @@ class Check:
         for v in self.violations:
             print(f"VIOLATION property={v.pid} replay={v.replay}")
             log("  " + v.what)
-        if not self.violations and not os.environ.get("VERIF_KEEP_WORK"):
-            shutil.rmtree(self.work, ignore_errors=True)
+        if not os.environ.get("VERIF_KEEP_WORK"):
+            shutil.rmtree(self.work, ignore_errors=True)      # the failing runs are in out/replay
         log(f"[{self.pid}] {self.tier}: {self.events} events, {self.runs_ok} runs accepted, "
             f"{self.states} states, {len(self.violations)} violation(s), {wall:.0f}s")
         return 1 if self.violations else 0
